@@ -83,7 +83,7 @@ func c03GenMalformed(rt *rapid.T) string {
 			continue
 		}
 		i := rapid.IntRange(0, len(toks)-1).Draw(rt, "at")
-		ins := rapid.SampledFrom([]string{",", ")", "(", "]", "[", ".", "==", "&&", "!", "a", "1", "'s'", "*"}).Draw(rt, "tok")
+		ins := rapid.SampledFrom([]string{",", ")", "(", "]", "[", ".", "==", "&&", "!", "a", "1", "'s'", "*", "=", "&", "|", "-", "+", "'abc", "0x", "}", "#", "?", "1.", "1e", "<>"}).Draw(rt, "tok")
 		switch rapid.IntRange(0, 4).Draw(rt, "edit") {
 		case 0:
 			toks = append(toks[:i:i], toks[i+1:]...)
@@ -118,6 +118,30 @@ func c03GenMalformed(rt *rapid.T) string {
 	return "${{ f(a, ) }}"
 }
 
+// c03GenLexTail: a complete well-formed expression followed by text in which the LEXER fails in the
+// middle of a token (half an operator, an unterminated string, a number without digits, half a closing
+// brace), optionally followed by more well-formed text.
+func c03GenLexTail(rt *rapid.T) string {
+	for try := 0; try < 8; try++ {
+		p := &eg.Printer{WS: func() string { return " " }}
+		p.Print(eg.GenSyntax(rt, rapid.IntRange(1, 2).Draw(rt, "depth")))
+		head := strings.Join(p.Tokens(), " ")
+		if rapid.Bool().Draw(rt, "knownhead") {
+			head = rapid.SampledFrom([]string{"github.sha", "github.run_number", "true", "'x'", "(github.ref)", "contains(github.ref, 'a')", "github.event.x[0]"}).Draw(rt, "head")
+		}
+		bad := rapid.SampledFrom([]string{"=", "&", "|", "-", "'unterminated", "0x", "}", "!=!", "<=>", "1e", "0o", "."}).Draw(rt, "bad")
+		tail := rapid.SampledFrom([]string{"", " github.ref", " 1", " b", " 'y'", " (true)"}).Draw(rt, "tail")
+		src := head + rapid.SampledFrom([]string{" ", " ", ""}).Draw(rt, "gap") + bad + tail
+		if strings.Contains(src, "}}") || strings.Contains(src, "${{") || !isASCII(src) || strings.ContainsAny(src, "\n\r\t\"") {
+			continue
+		}
+		if _, ok := eg.Parse(src + " }}"); !ok {
+			return "${{ " + src + " }}"
+		}
+	}
+	return "${{ github.sha = github.ref }}"
+}
+
 var c03Embedded = []string{"a ${{ github. }} b", "${{ 'ok' }} ${{ 'x }}", "x }} y ${{ github. }}", "{\"a\":{\"b\":1}} ${{ a b }}", "${{ 'ok' }} }} ${{ 'x }}"}
 
 // scalarLeaves lists the value leaves (mapping values and sequence elements) of a tree.
@@ -133,7 +157,7 @@ func scalarLeaves(root *ye.Node) []*ye.Node {
 
 func TestC03(t *testing.T) {
 	hx.Main(t, "C03", func(r *hx.Run) {
-		r.Rule = "clean workflow from the workflow-syntax model (all sections incl. rare ones and expression-valued forms; random layout and quoting) x EVERY scalar value leaf x malformed placeholder forms {${{ github. }}, ${{ }}, ${{ 'x }}, ${{ a b }}; for untyped string leaves also embedded in text} plus 3 placeholders per workflow derived from generated well-formed expressions by one token edit (delete / insert / replace / extra comma inside a bracket pair) which the reference grammar of C04 rejects. Oracle from the model: >=1 diagnostic on the leaf's line within its column span; for template leaves an expression syntax diagnostic. Every (workflow, leaf, form) is non-trivial; distinct = (key path with sibling-configuration class, form)."
+		r.Rule = "clean workflow from the workflow-syntax model (all sections incl. rare ones and expression-valued forms; random layout and quoting) x EVERY scalar value leaf x malformed placeholder forms {${{ github. }}, ${{ }}, ${{ 'x }}, ${{ a b }}; for untyped string leaves also embedded in text} plus 3 placeholders per workflow derived from generated well-formed expressions by one token edit (delete / insert / replace / extra comma inside a bracket pair) which the reference grammar of C04 rejects (the inserted tokens include halves of operators, unterminated strings and digit-less numbers; one of the three is a complete well-formed expression followed by such a lexer-level error). Oracle from the model: >=1 diagnostic on the leaf's line within its column span; for template leaves an expression syntax diagnostic. Every (workflow, leaf, form) is non-trivial; distinct = (key path with sibling-configuration class, form)."
 		r.Assumptions = []string{"workflow-syntax model in harness/wf (written from GitHub's syntax reference)", "only single-line scalars are replaced", "exempt from the template clause: event names, input type, permissions values, secrets: inherit"}
 		covered := map[string]int64{}
 		unclean := 0
@@ -154,7 +178,7 @@ func TestC03(t *testing.T) {
 				}
 				return
 			}
-			generated := []string{c03GenMalformed(rt), c03GenMalformed(rt), c03GenMalformed(rt)}
+			generated := []string{c03GenMalformed(rt), c03GenMalformed(rt), c03GenLexTail(rt)}
 			for _, lf := range scalarLeaves(w.Root) {
 				info := wf.LeafOf(lf)
 				forms := append(append([]string{}, c03Lone...), generated...)
